@@ -190,6 +190,13 @@ def check_program(fst, pi, src, tier, res, rects=True, root=None, tag='', rep=No
             if (f.ln, f.col, f.end_ln, f.end_col) != want:
                 bad(ps + '/lncol', 'ln-col-accessors-differ', f'{cls}')
                 continue
+            try:  # the text read back through the location is the node's text (from the node and from the root, as text and as lines)
+                g = (f.get_src(*want), root.get_src(*want), '\n'.join(f.get_src(*want, as_lines=True)))
+            except Exception as ex:  # noqa: BLE001
+                g = repr(ex)
+            if g != (src[s:e],) * 3:
+                bad(ps + '/get_src', 'get_src-at-loc-not-node-text', f'{cls}: got={g!r} want={src[s:e]!r}')
+                continue
             if not isinstance(node, (ast.stmt, ast.excepthandler)) and f.src != src[s:e] and id(node) not in in_ftstr:
                 bad(ps + '/src', 'src-not-text-at-loc', f'{cls}: got={f.src!r} want={src[s:e]!r}')
                 continue
